@@ -13,6 +13,7 @@ PROP = dict(
     ],
     gen=[
         dict(module="GenServePipeline", cfg=dict(quick="GenServePipeline_quick.cfg", thorough="GenServePipeline_thorough.cfg"), timeout=1200),
+        dict(module="GenServePipeline", cfg="GenServePipeline_thorough3.cfg", timeout=1800, tiers=["thorough"]),
         dict(module="GenAccessorMemo", cfg=dict(quick="GenAccessorMemo_quick.cfg", thorough="GenAccessorMemo_thorough.cfg"), timeout=1200),
     ],
     driver="c09",
